@@ -394,8 +394,20 @@ def _run(ctx):
     conv_sites = ancestor_chains(prog, fn, lambda f_, n: isinstance(n.func, ast.Attribute) and n.func.attr == "literal_eval")
     c_ok = False
     n_conv = 0
+    def through_helpers(chain):
+        """`return <expr>` directly in a helper's body stands where the helper is called: those two links are dropped"""
+        out_, i_ = [], 0
+        while i_ < len(chain):
+            if i_ + 1 < len(chain) and isinstance(chain[i_][0], ast.Return) and isinstance(chain[i_ + 1][0], (ast.FunctionDef, ast.AsyncFunctionDef)) and chain[i_ + 1][1] == "body" \
+                    and i_ + 2 < len(chain):
+                i_ += 2
+                continue
+            out_.append(chain[i_])
+            i_ += 1
+        return out_
     for _f, call, chains in conv_sites:
         for chain in chains:
+            chain = through_helpers(chain)
             if not chain or not isinstance(chain[0][0], ast.Call):
                 continue            # (the enum branch only probes for a number and falls back to the name: not a converter)
             n_conv += 1
